@@ -351,6 +351,7 @@ func main() {
 	if phase == "alloc" {
 		allocPhase(r, thorough)
 		sizesPhase(r, thorough)
+		decHostilePhase(r, thorough)
 	}
 	keys := make([]string, 0, len(stats))
 	for k := range stats {
